@@ -45,6 +45,7 @@ import threading
 from collections import Counter
 from pathlib import Path
 
+import common
 from common import Suite, Violation, canon, err_enum, quiet, scratch_dir
 import coop
 
@@ -192,8 +193,8 @@ class ResultsSuite(Suite):
             coop.patched(ra, "SoftFileLock", coop.lock_class(get, on_contended="timeout")),
             coop.patched(ra, open=_faulty_open(self, get, self.root), os=_FaultyOs(self, get, self.root)),
             coop.patched(ra.ResultsAggregator, "_get_node_results_files", recording_glob),
-            coop.patched(jres, "time", _Clock.time),
-            coop.patched(acc, "time", _Clock),
+            coop.patched(jres, "time", common.dual_time(_Clock)),
+            coop.patched(acc, "time", common.dual_time(_Clock)),
         ]
         for p in self._patches:
             p.__enter__()
@@ -853,7 +854,7 @@ class ResultsSuite(Suite):
                 def time():
                     return next(ticks)
             saved = (self.acc.time, self.jres.time)
-            self.acc.time, self.jres.time = T, T.time
+            self.acc.time, self.jres.time = common.dual_time(T), common.dual_time(T)
             try:
                 cmd._complete()
             finally:
